@@ -169,6 +169,7 @@ class LPRelation(Relation):
     n_thorough = 1200
 
     small_scope = True      # thorough tier: also the exhaustive small scope of instgen.enum_small
+    large_cases = 0         # number of larger instances (quick tier); only where the judge scales
 
     def cases(self, ctx):
         for c in gen_lp_cases(ctx, self.name, self.n_thorough if ctx.thorough else self.n_quick, **self.gen_kwargs):
@@ -176,6 +177,19 @@ class LPRelation(Relation):
         if ctx.tier == 'thorough' and not ctx.search and self.small_scope:
             for c in small_scope_cases(ctx, self.name, self.gen_kwargs):
                 yield c
+        if self.large_cases:
+            # larger instances: multi-digit student / project ids, bigger capacities (only for relations whose judge does
+            # not enumerate all matchings)
+            rng = ctx.rng(self.name + '/large')
+            for i in range(self.large_cases * (6 if ctx.thorough else 1)):
+                ast = instgen.gen_ast(rng, maxS=13, maxP=13, maxL=4, S=rng.randint(9, 13), P=rng.randint(10, 13),
+                                      zero_caps=False)
+                twopl = self.gen_kwargs.get('force_twopl') or rng.random() < 0.6
+                stab = twopl and rng.random() < (1.0 if self.gen_kwargs.get('stab_bias', 0) >= 1.0 else 0.3)
+                crits = gen_crits(rng, ast, n=rng.choice([0, 1, 2]))
+                pc = rng.random() < 0.3
+                yield dict(text=instgen.render(ast), na=ast['na'], twopl=twopl, pc=pc, stab=stab,
+                           crits=[[c, x] for c, x in crits], argv=argv_of(ast['na'], twopl, pc, stab, crits, rng), ast=ast)
 
     def observe(self, inp):
         return lp_run(inp['text'], inp['argv'])
@@ -240,6 +254,7 @@ class LPRelation(Relation):
 class RLp(LPRelation):
     name = 'R_lp'
     kind = 'corr'
+    large_cases = 8
     describe = ('Solver(argv).solve() on random instances x option sets (-twopl/-pc/-stab x 0..4 of the nine criteria '
                 'with optional arguments, positions with gaps, shuffled flag order) with pulp.LpProblem.solve wrapped: '
                 'every problem handed to CBC (constraints as canonical multisets, objective, variable bounds, duplicate '
@@ -265,6 +280,7 @@ class RLp(LPRelation):
 class MValid(LPRelation):
     name = 'M_valid'
     kind = 'monitor'
+    large_cases = 8
     describe = ('same generator; every Optimal run\'s printed matching judged by valid_b evaluated in Coq on the instance '
                 'read by the model importer; non-trivial as R_lp and status Optimal')
 
@@ -331,6 +347,7 @@ class MLex(LPRelation):
 class MStable(LPRelation):
     name = 'M_stable'
     kind = 'monitor'
+    large_cases = 6
     gen_kwargs = dict(stab_bias=1.0, force_twopl=True)
     describe = ('two-sided instances with -stab; the printed matching must have no blocking pair by the SPA-STL '
                 'definition evaluated in Coq; together with M_status (feasible set = stable valid matchings) and M_lex '
